@@ -17,7 +17,7 @@ RULE = ("split_sync: all 65536 int16 words (exhaustive) in natural, shuffled, co
         "step amplitudes and analog thresholding. Non-trivial: a train with >= 3 events on >= 2 lines; distinct = distinct "
         "(layout | file kind, line subset, slice, dtype) signature")
 ASSUMPTIONS = ["one digital sync word per sample (as in every fixture); 0/1 trains are given as signed or floating arrays"]
-REQUIRED = {"words_checked": 65536, "read_sync_checked": 10, "fronts_checked": 100, "fronts_2d_checked": 100, "strided_sync_checked": 20, "analog_lines_checked": 4}
+REQUIRED = {"words_checked": 65536, "read_sync_checked": 10, "fronts_checked": 100, "fronts_2d_checked": 100, "strided_sync_checked": 20, "nidq_partial_checked": 8, "analog_lines_checked": 4}
 CASE_TIMEOUT = 120.0
 EXHAUSTIVE = "split_sync over all 65536 words x 16 bits"
 
@@ -140,7 +140,8 @@ def run_case(case):
             # strided and reversed selections: one sync row per selected sample, in the order of the selection
             # (the fronts of a reversed read are the mirrored events with opposite polarity)
             for sl in (slice(None, None, -1), slice(ns - 1, None, -int(rng.integers(2, 9))), slice(int(ns * 0.9), int(ns * 0.1), -1),
-                       slice(int(ns * 0.7), int(ns * 0.2), -int(rng.integers(2, 6))), slice(3, ns, int(rng.integers(2, 7)))):
+                       slice(int(ns * 0.7), int(ns * 0.2), -int(rng.integers(2, 6))), slice(3, ns, int(rng.integers(2, 7))),
+                       slice(5, 40, -1), slice(ns + 5, ns, -2)):        # the last two select nothing
                 kcont = "cbin" if use_c else "bin"
                 exp = T[sl]
                 sy = sr.read_sync(sl)
@@ -231,6 +232,21 @@ def run_case(case):
                               counter="read_sync_checked")
                     res.check(np.array_equal(sy[:, 16:], A), "read_sync:nidq-analog",
                               f"thresholded analog lines differ (xa={xa}, {int((sy[:, 16:] != A).sum())} samples)", counter="analog_lines_checked")
+            # partial, strided and reversed selections: digital rows exactly; an analog line is judged when at least 15 % of the selected
+            # samples are at its low level (the reader takes the 10th percentile of the selection as the floor)
+            a0 = int(rng.integers(0, ns // 3))
+            b0 = int(rng.integers(2 * ns // 3, ns))
+            for sl in (slice(a0, b0), slice(a0, b0, int(rng.integers(2, 5))), slice(b0, a0, -1), slice(None, None, -int(rng.integers(1, 4)))):
+                sy = sr.read_sync(sl)
+                exp = np.c_[T, A][sl]
+                ok_shape = sy.shape == exp.shape
+                res.check(ok_shape and np.array_equal(sy[:, :16], exp[:, :16]), "read_sync:nidq-partial-digital",
+                          f"nidq read_sync({sl}): shape {sy.shape} expected {exp.shape} / digital rows differ", counter="nidq_partial_checked")
+                if ok_shape:
+                    for j in range(xa):
+                        if np.mean(exp[:, 16 + j] == 0) >= 0.15:
+                            res.check(np.array_equal(sy[:, 16 + j], exp[:, 16 + j]), "read_sync:nidq-partial-analog",
+                                      f"nidq read_sync({sl}): thresholded analog line {j} differs at {int((sy[:, 16 + j] != exp[:, 16 + j]).sum())} samples")
             full = sr.read_sync(slice(0, ns))
             for ln in range(full.shape[1]):
                 pos, pol = ev.get(ln, (np.array([], int), np.array([], int)))
